@@ -5,6 +5,8 @@
 //!   are the environment (any kind, by C04 only their number matters) plus, in the *_coowner
 //!   harnesses, a second harness-held handle of kind Arc / OffsetArc / ArcUnion / raw.
 //! ASSUME: alloc/dealloc logging stubs; count preset through the hook.
+//! BOUNDS: (real_history_*, borrows_then_in_place) short histories without any preset count: the other owner is made,
+//!   cloned and released through its own kind's operations; borrow-style calls precede make_mut on a sole owner.
 //! OUTSIDE: schedules (weak-memory engine); a panicking Clone (C07).
 use crate::ghost::*;
 use crate::kinds::*;
@@ -90,6 +92,56 @@ fn cow_coowner<K2: Kind<P = Dt>>() {
     forget(h);
     forget(other);
 }
+/// no preset count at all: the only other owner is a handle of another kind that was made, cloned and (the
+/// original) released through that kind's own operations; then the write, then the other owner goes and a
+/// second make_mut must stay in place
+fn cow_real_history<K2: Kind<P = Dt>>() {
+    let v0: u8 = kani::any();
+    let neww: u8 = kani::any();
+    kani::assume(neww != v0);
+    let mut a = Arc::new(Dt::new(0, v0));
+    let o1 = K2::from_arc(a.clone());
+    let other = o1.dup();
+    o1.release();
+    // owners: a, other
+    let old = Arc::as_ptr(&a) as usize;
+    Arc::make_mut(&mut a).v = neww;
+    assert!(a.v == neww && Arc::as_ptr(&a) as usize != old, "wrote in place although a handle of another kind still owns the value");
+    assert!(clones() == 1);
+    assert!(other.data_addr() == old && unsafe { (*(old as *const Dt)).v } == v0, "the other owner sees the write");
+    assert!(other.count() == 1 && Arc::count(&a) == 1);
+    other.release();
+    assert!(n_live() == 1, "the old allocation must be gone with its last owner");
+    let p = Arc::as_ptr(&a) as usize;
+    let _ = Arc::make_mut(&mut a);
+    assert!(Arc::as_ptr(&a) as usize == p && clones() == 1, "a sole owner was copied");
+    drop(a);
+    assert!(n_live() == 0);
+}
+h!(q_real_history_offset, cow_real_history::<OffsetArc<Dt>>());
+h!(r0_real_history_raw, cow_real_history::<Raw<Dt>>());
+h!(r1_real_history_union2, cow_real_history::<U2<Dt>>());
+h!(r2_real_history_swap, cow_real_history::<Swp<Dt>>());
+// borrow-style operations do not make a sole owner look shared: make_mut afterwards stays in place, no Clone
+h!(q_borrows_then_in_place, {
+    let v0: u8 = kani::any();
+    let mut a = Arc::new(Dt::new(0, v0));
+    let p = Arc::as_ptr(&a) as usize;
+    let r = a.with_raw_offset_arc(|o| o.v);
+    let r2 = a.borrow_arc().with_arc(|x| x.v);
+    assert!(r == v0 && r2 == v0);
+    let _ = Arc::make_mut(&mut a);
+    let _ = Arc::make_unique(&mut a);
+    assert!(Arc::as_ptr(&a) as usize == p && clones() == 0 && nalloc() == 1, "a borrow made a sole owner look shared: copied");
+    let mut o = Arc::into_raw_offset(a);
+    let r3 = o.with_arc(|x| x.v);
+    let r4 = o.borrow_arc().with_arc(|x| x.v);
+    assert!(r3 == v0 && r4 == v0);
+    let _ = o.make_mut();
+    assert!(&*o as *const Dt as usize == p && clones() == 0 && nalloc() == 1, "a borrow made a sole OffsetArc look shared: copied");
+    drop(o);
+    assert!(n_live() == 0 && ledger_is(0, 1));
+});
 h!(q_coowner_offset, cow_coowner::<OffsetArc<Dt>>());
 h!(q_coowner_raw, cow_coowner::<Raw<Dt>>());
 h!(r0_coowner_union1, cow_coowner::<U1<Dt>>());
